@@ -141,6 +141,7 @@ CountsExact ==
      /\ elc[h] = 0
 \* every locator held by an open element points into the vector, at an inactive entry
 \* every (document, handler set) of the instance, printed once for replay in the real code (job c05)
-Emit == Done => PrintT(<<"REPLAY", ToJson([hdoc |-> doc, hs |-> hs])>>)
+\* (documents of up to 3 items and the hand-picked longer ones; the 4-item documents of the thorough instance are only model-checked)
+Emit == (Done /\ (Len(doc) <= 3 \/ Len(doc) >= 5)) => PrintT(<<"REPLAY", ToJson([hdoc |-> doc, hs |-> hs])>>)
 LocatorsValid == \A j \in 1..Len(stack) : stack[j].eth = 0 \/ (stack[j].eth <= Len(ethv) /\ ethv[stack[j].eth].uc = 0)
 =============================================================================
